@@ -81,7 +81,9 @@ def side_condition(name, site_body, site, recv):
         return True, ""
     lits = [x[2] for x in T.consts_in(recv, "str")]
     if name == "regex_literal_simple":
-        ok = bool(lits) and all(re.fullmatch(r"(\\d|\\\.|\\n|\+|\*|\?|\.)+", l) is not None for l in lits)
+        # a conservative fragment that both regex engines accept: escapes \d \w \s \. , plain characters, `.`, simple bracket classes, + * ? quantifiers
+        tok = r"(\\[dwsDWS.\-+*?()\[\]{}|^$\\/]|\\n|\[\^?([A-Za-z0-9_ .,:;\-]|\\[dws.\-])+\]|[A-Za-z0-9_ ,:;=<>~^\-]|\.|\+|\*|\?)"
+        ok = bool(lits) and all(re.fullmatch("(%s)+" % tok, l) is not None and not re.search(r"(^|[^\\])[+*?]{2}", l) for l in lits)
         return ok, "literal(s) %r" % lits
     if name == "regex_literal_no_group":
         ok = bool(lits) and all("(" not in l for l in lits)
